@@ -7,13 +7,13 @@
 //@ rewrite PP ".mapv(F::exp)" => ".mapv_exp_abs()   /* .mapv(F::exp) */"
 //@ extract PI from algorithms/linfa-clustering/src/gaussian_mixture/algorithm.rs anchor "fn predict_inplace(&self, observations: &ArrayBase<D, Ix2>, targets: &mut Array1<usize>) {" body
 //@ drop PI from "assert_eq!(" through ");" as "        assert_len_abs(observations.nrows(), targets.len());   /* assert_eq!(observations.nrows(), targets.len(), ..) */"
-//@ rewrite PI "let (_, log_resp)" => "let (norm_unused, log_resp)"
-//@ rewrite PI ".mapv(F::exp)" => ".mapv_exp_abs()   /* .mapv(F::exp) */"
+//@ rewrite? PI "let (_, log_resp)" => "let (norm_unused, log_resp)"
+//@ rewrite? PI ".mapv(F::exp)" => ".mapv_exp_abs()   /* .mapv(F::exp) */"
 //@ rewrite-re PI "\.map_axis\(Axis\((\d)\), \|row\| (.+)\);" => ".map_axis_abs(Axis(\1), |row: RowTok| -> (o: usize) requires row.v@.len() > 0 ensures is_argmax(row.v@, o as int) { \2 });"
 //@ expect-fail vacuity_guard_predict
 use vstd::prelude::*;
 verus! {
-pub enum E { LogResp(int), Exp(Box<E>) }
+pub enum E { LogResp(int), Exp(Box<E>), WeightedLogProb(int), LogProb(int) }
 pub uninterp spec fn rows_of(e: E) -> Seq<Seq<real>>;          // the numbers in the matrix `e`, row by row
 pub open spec fn is_argmax(row: Seq<real>, k: int) -> bool { 0 <= k < row.len() && forall|j: int| 0 <= j < row.len() ==> #[trigger] row[j] <= row[k] }
 pub struct Axis(pub usize);
@@ -44,6 +44,17 @@ pub struct ObsTok { pub id: Ghost<int>, pub n: usize }
 impl ObsTok { pub fn nrows(&self) -> (r: usize) ensures r == self.n { self.n } }
 #[verifier::external_body] pub fn assert_len_abs(a: usize, b: usize) requires a == b { unimplemented!() }
 pub open spec fn proba(obs: int) -> E { E::Exp(Box::new(E::LogResp(obs))) }
+// ASSUMED mathematical fact: responsibilities are exp(weighted log probability - a per-row constant), a strictly increasing map within each row,
+// so a row of the weighted log probabilities, of the log responsibilities and of the responsibilities have the same arg-max set
+// (the UNWEIGHTED log probabilities do not: they miss ln weight_j)
+#[verifier::external_body]
+pub proof fn lemma_weighted_argmax(o: int)
+    ensures rows_of(E::WeightedLogProb(o)).len() == rows_of(proba(o)).len(), rows_of(E::LogResp(o)).len() == rows_of(proba(o)).len(),
+        forall|i: int, k: int| 0 <= i < rows_of(proba(o)).len() ==> (#[trigger] is_argmax(rows_of(E::WeightedLogProb(o))[i], k) <==> is_argmax(rows_of(proba(o))[i], k)),
+        forall|i: int, k: int| 0 <= i < rows_of(proba(o)).len() ==> (#[trigger] is_argmax(rows_of(E::LogResp(o))[i], k) <==> is_argmax(rows_of(proba(o))[i], k)),
+        forall|i: int| 0 <= i < rows_of(proba(o)).len() ==> (#[trigger] rows_of(E::WeightedLogProb(o))[i]).len() == rows_of(proba(o))[i].len(),
+        forall|i: int| 0 <= i < rows_of(proba(o)).len() ==> (#[trigger] rows_of(E::LogResp(o))[i]).len() == rows_of(proba(o))[i].len(),
+{}
 pub struct ModelV { pub k: Ghost<int> }
 impl ModelV {
     // (log P(x), log responsibilities): one row per observation, one column per component (ASSUMED: float code with exp / ln / Cholesky)
@@ -51,6 +62,11 @@ impl ModelV {
     pub fn estimate_log_prob_resp(&self, o: &ObsTok) -> (r: (VecTok, MatTok))
         ensures r.1.e@ == E::LogResp(o.id@), r.1.ncols@ == self.k@,
     { unimplemented!() }
+    // the sibling estimators of the model (ASSUMED float code): log N(x | mean_j, cov_j) + ln weight_j, and the same without the weights
+    #[verifier::external_body]
+    pub fn estimate_weighted_log_prob(&self, o: &ObsTok) -> (r: MatTok) ensures r.e@ == E::WeightedLogProb(o.id@), r.ncols@ == self.k@ { unimplemented!() }
+    #[verifier::external_body]
+    pub fn estimate_log_prob(&self, o: &ObsTok) -> (r: MatTok) ensures r.e@ == E::LogProb(o.id@), r.ncols@ == self.k@ { unimplemented!() }
     pub fn predict_proba(&self, observations: &ObsTok) -> (r: MatTok)
         ensures r.e@ == proba(observations.id@),
     {
@@ -64,6 +80,7 @@ impl ModelV {
         ensures final(targets).v@.len() == observations.n,
             forall|i: int| 0 <= i < observations.n ==> is_argmax(rows_of(proba(observations.id@))[i], #[trigger] final(targets).v@[i]),
     {
+        proof { lemma_weighted_argmax(observations.id@); }
 /*@PI*/
     }
     pub fn vacuity_guard_predict(&self, observations: &ObsTok, targets: &mut IdxTok)
